@@ -212,10 +212,12 @@ package wal
 //@ -- is what CommitState persists (C03/C04 "PInv"): keys are BaseIndexes (>= 1),
 //@ -- every segment that has a successor is sealed with MinIndex <= MaxIndex and
 //@ -- its successor starts at MaxIndex+1 (no gap, no overlap), segment IDs grow
-//@ -- with the key and stay below nextSegmentID (C13: never reused).
+//@ -- with the key and stay below nextSegmentID (C13: never reused); only the
+//@ -- first segment can have been head-truncated (MinIndex > BaseIndex).
 //@ predicate SInv(s) = s.segments != nil
 //@   && (forall k uint64 :: {smhas(s.segments, k)} smhas(s.segments, k) ==> k >= 1 && smget(s.segments, k).BaseIndex == k
-//@          && smget(s.segments, k).MinIndex >= k && smget(s.segments, k).ID < s.nextSegmentID)
+//@          && smget(s.segments, k).MinIndex >= k && smget(s.segments, k).ID < s.nextSegmentID
+//@          && (k != smmin(s.segments) ==> smget(s.segments, k).MinIndex == k))
 //@   && (forall k uint64 :: {smhas(s.segments, k)} smhas(s.segments, k) && hasnext(s.segments, k) ==>
 //@          !unsealedSeg(smget(s.segments, k)) && smget(s.segments, k).MinIndex <= smget(s.segments, k).MaxIndex
 //@          && smnext(s.segments, k) == smget(s.segments, k).MaxIndex + 1
@@ -288,21 +290,40 @@ package wal
 //@   ensures[C04.head-applied] result == nil && old(LastOf(av(w.s))) >= newMin ==> FirstOf(av(w.s)) == newMin && LastOf(av(w.s)) == old(LastOf(av(w.s)))
 //@   ensures[C04.head-all-removed] result == nil && old(LastOf(av(w.s))) < newMin ==> FirstOf(av(w.s)) == 0 && LastOf(av(w.s)) == 0
 //@   ensures[C04.head-one-commit] result == nil ==> g_commits == old(g_commits) + 1
+//@   ensures[C10.published-only-on-success] result != nil ==> av(w.s) == old(av(w.s))
 //@   ensures result != nil ==> g_commits == old(g_commits) || g_commits == old(g_commits) + 1
 //@ func (*WAL).truncateTailLocked
-//@   trusted transaction bodies are covered by the segment-map model (not yet under contract)
+//@   props C03 C04 C05 C13
+//@   inlinecall mutateStateLocked
+//@   requires w.metaDB != nil && w.codec != nil && w.sf != nil && w.metrics != nil && av(w.s) != nil && WFS(av(w.s))
+//@   requires[assumed-headroom] Headroom(av(w.s))
+//@   requires[C04.tail-newmax] FirstOf(av(w.s)) != 0 && FirstOf(av(w.s)) <= newMax && newMax < LastOf(av(w.s))
 //@   requires[C05.no-pending-rotation] g_rot_pending == 0
-//@   assigns g_commits, w.s
-//@   ensures true
+//@   assigns g_commits, g_open, w.s, av(w.s).refCount, av(w.s).finalizer, av(w.s).tail.sealed, av(w.s).tail.indexStart
+//@   ensures[C03.published-state-wf] av(w.s) != nil && WFS(av(w.s))
+//@   ensures[C04.tail-applied] result == nil ==> FirstOf(av(w.s)) == old(FirstOf(av(w.s))) && LastOf(av(w.s)) == newMax
+//@   ensures[C04.tail-one-commit] result == nil ==> g_commits == old(g_commits) + 1
+//@   ensures[C10.published-only-on-success] result != nil ==> av(w.s) == old(av(w.s))
+//@   ensures result != nil ==> g_commits == old(g_commits) || g_commits == old(g_commits) + 1
 
 //@ func (*WAL).DeleteRange
-//@   props C05 C14
-//@   requires w.metaDB != nil && av(w.s) != nil && WFS(av(w.s))
-//@   assigns g_commits, w.s, w.awaitRotate, av(w.s).refCount, av(w.s).finalizer, g_rot_pending
+//@   props C03 C04 C05 C14
+//@   requires w.metaDB != nil && w.codec != nil && w.sf != nil && w.metrics != nil && av(w.s) != nil && WFS(av(w.s))
+//@   requires[assumed-headroom] Headroom(av(w.s))
+//@   assigns g_commits, g_open, w.s, w.awaitRotate, av(w.s).refCount, av(w.s).finalizer, g_rot_pending, av(w.s).tail.sealed, av(w.s).tail.indexStart
 //@   ensures[C14.deleterange-closed] w.closed != 0 ==> result == types.ErrClosed && g_commits == old(g_commits)
 //@   ensures[C05.classify-empty] w.closed == 0 && min > max ==> result == nil && g_commits == old(g_commits)
 //@   ensures[C05.classify-outside] w.closed == 0 && min <= max && (max < uint64(g_obs_first) || min > uint64(g_obs_last)) ==> result == nil && g_commits == old(g_commits)
 //@   ensures[C05.classify-middle] w.closed == 0 && min <= max && !(max < uint64(g_obs_first) || min > uint64(g_obs_last)) && min > uint64(g_obs_first) && max < uint64(g_obs_last) ==> result != nil && g_commits == old(g_commits)
+//@   ensures[C03.published-state-wf] av(w.s) != nil && WFS(av(w.s))
+//@   ensures[C05.observed] w.closed == 0 && min <= max ==> uint64(g_obs_first) == old(FirstOf(av(w.s))) && uint64(g_obs_last) == old(LastOf(av(w.s)))
+//@   ensures[C04.prefix-applied] w.closed == 0 && min <= max && result == nil && min <= old(FirstOf(av(w.s))) && max >= old(FirstOf(av(w.s))) && max < old(LastOf(av(w.s)))
+//@        ==> FirstOf(av(w.s)) == max + 1 && LastOf(av(w.s)) == old(LastOf(av(w.s)))
+//@   ensures[C04.all-removed] w.closed == 0 && min <= max && result == nil && min <= old(FirstOf(av(w.s))) && max >= old(LastOf(av(w.s))) && max >= old(FirstOf(av(w.s)))
+//@        ==> FirstOf(av(w.s)) == 0 && LastOf(av(w.s)) == 0
+//@   ensures[C04.suffix-applied] w.closed == 0 && min <= max && result == nil && min > old(FirstOf(av(w.s))) && min <= old(LastOf(av(w.s))) && max >= old(LastOf(av(w.s)))
+//@        ==> FirstOf(av(w.s)) == old(FirstOf(av(w.s))) && LastOf(av(w.s)) == min - 1
+//@   ensures[C10.published-only-on-success] result != nil ==> av(w.s) == old(av(w.s))
 
 //@ -- every value published in WAL.s must be usable by a reader that loaded it
 //@ -- after passing the closed check (all readers dereference segments and tail)
@@ -441,3 +462,25 @@ package wal
 //@        && smmax(newState.segments) == old(smmax(newState.segments)) && (newState.tail.last == 0 ==> smmin(newState.segments) != smmax(newState.segments)) && result1 == nil
 //@   ensures[C04.head-all-removed] result2 == nil && old(LastOf(newState)) < newMin ==> smnonempty(newState.segments) && smmin(newState.segments) == smmax(newState.segments)
 //@        && smmax(newState.segments) == old(LastOf(newState)) + 1 && smget(newState.segments, smmax(newState.segments)).ID == old(newState.nextSegmentID)
+
+//@ -- tail truncation: drop whole segments above newMax, seal the segment that
+//@ -- holds newMax at MaxIndex = newMax and start a new tail at newMax+1
+//@ func (*WAL).truncateTailLocked$1
+//@   props C03 C04 C13
+//@   implements wal.stateTxn
+//@   cbinv w != nil && w.codec != nil && w.sf != nil && w.metrics != nil
+//@   requires Headroom(newState)
+//@   requires[C04.tail-newmax] FirstOf(newState) != 0 && FirstOf(newState) <= newMax && newMax < LastOf(newState)
+//@   assigns newState.segments, newState.nextSegmentID, newState.tail.sealed, newState.tail.indexStart
+//@   loop 1 invariant newState.segments != nil
+//@   loop 1 invariant itvalid(it) ==> smhas(old(newState.segments), itcur(it))
+//@   loop 1 invariant forall k uint64 :: {smhas(newState.segments, k)} smhas(newState.segments, k) ==> smhas(old(newState.segments), k) && itvalid(it) && k <= itcur(it)
+//@   loop 1 invariant forall k uint64 :: {smhas(old(newState.segments), k)} smhas(old(newState.segments), k) && itvalid(it) && k <= itcur(it) ==> smhas(newState.segments, k)
+//@   loop 1 invariant forall k uint64 :: {smhas(newState.segments, k)} smhas(newState.segments, k) ==> SameSeg(smget(newState.segments, k), smget(old(newState.segments), k))
+//@   loop 1 invariant itvalid(it) ==> smmax(newState.segments) == itcur(it)
+//@   loop 1 invariant forall k uint64 :: {smhas(newState.segments, k)} smhas(newState.segments, k) && hasnext(newState.segments, k) ==> hasnext(old(newState.segments), k) && smnext(newState.segments, k) == smnext(old(newState.segments), k)
+//@   loop 1 invariant forall k uint64 :: {smhas(old(newState.segments), k)} smhas(old(newState.segments), k) && (!itvalid(it) || k > itcur(it)) ==> k > newMax
+//@   loop 1 invariant newState.tail.sealed == old(newState.tail.sealed)
+//@   ensures[C04.tail-applied] result2 == nil ==> result1 != nil && smmax(newState.segments) == newMax + 1 && smmin(newState.segments) == old(smmin(newState.segments))
+//@        && smget(newState.segments, smmin(newState.segments)).MinIndex == old(smget(newState.segments, smmin(newState.segments)).MinIndex)
+//@   ensures[C13.tail-fresh-id] result2 == nil ==> newState.nextSegmentID == old(newState.nextSegmentID) + 1 && smget(newState.segments, smmax(newState.segments)).ID == old(newState.nextSegmentID)
